@@ -89,6 +89,12 @@ func genSessionOps(rng *rand.Rand, c *Case, timeout, ooo int64, keys []string, l
 
 func (c10) Gen(rng *rand.Rand, tier string, idx int) Case {
 	var c Case
+	if idx%12 == 11 {
+		to := []int64{1000, 500}[rng.Intn(2)]
+		c.Cfg = [][]string{{"kind", "sqlsession"}, {"timeout", itoa(to)}, {"ooo", "0"}, {"late", "0"}, {"now", "0"}}
+		genSQLSession(rng, &c, to)
+		return c
+	}
 	timeouts := []int64{10, 1000, 1_000_000_000, 3}
 	timeout := timeouts[rng.Intn(len(timeouts))]
 	oooChoices := []int64{0, 0, timeout / 2, timeout, 3 * timeout}
@@ -101,4 +107,37 @@ func (c10) Gen(rng *rand.Rand, tier string, idx int) Case {
 	return c
 }
 
-func (c10) Exec(c Case) [][][]string { return execWindow(c) }
+func (c10) Exec(c Case) [][][]string {
+	if isSQLWindowCase(c) {
+		return execSQLWindow(c)
+	}
+	return execWindow(c)
+}
+
+// genSQLSession: in-order input (MAXOUTOFORDERNESS 0) over 1-3 keys with gaps below / at / above the timeout.
+func genSQLSession(rng *rand.Rand, c *Case, timeout int64) {
+	clock := int64(1_000_000_000)
+	keys := []string{"a", "b", "c"}[:1+rng.Intn(3)]
+	n := 8 + rng.Intn(25)
+	id := 1
+	for i := 0; i < n; i++ {
+		switch rng.Intn(7) {
+		case 0:
+			clock += timeout - 1
+		case 1:
+			clock += timeout
+		case 2:
+			clock += timeout + 1
+		case 3:
+			clock += 3 * timeout
+		default:
+			clock += rng.Int63n(timeout/2 + 1)
+		}
+		c.Ops = append(c.Ops, []string{"row", strconv.Itoa(id), itoa(clock), hx(keys[rng.Intn(len(keys))])})
+		id++
+	}
+	c.Ops = append(c.Ops, []string{"row", strconv.Itoa(id), itoa(clock + 40*timeout), hx("zz")})
+	c.Ops = append(c.Ops, []string{"row", strconv.Itoa(id + 1), itoa(clock + 80*timeout), hx("zz")})
+	c.Ops = append(c.Ops, []string{"flush"})
+	c.Stat = append(c.Stat, "sql-level", "in-order-input")
+}
